@@ -47,9 +47,20 @@ pub struct ProxyWorld {
 
 /// types the proxy worlds are built from (no handles, futures, streams: their own checks)
 pub fn value_ty(allow_map: bool, allow_fixed: bool) -> BoxedStrategy<Ty> {
+    // lists whose elements are all-bits-valid aggregates (numbers only): the generators move
+    // those with a single copy when the element's layout in the guest language equals the
+    // canonical one, which is a decision of its own (tuples and records of mixed widths)
+    let num = prop_oneof![Just(Ty::U8), Just(Ty::S8), Just(Ty::U16), Just(Ty::S16), Just(Ty::U32), Just(Ty::S32), Just(Ty::U64), Just(Ty::S64), Just(Ty::F32), Just(Ty::F64)];
+    let rec = |ts: Vec<Ty>| Ty::Record(ts.into_iter().enumerate().map(|(i, t)| (format!("m{i}"), t)).collect());
+    let numagg = prop_oneof![
+        3 => prop::collection::vec(num.clone(), 2..5).prop_map(Ty::Tuple),
+        2 => prop::collection::vec(num.clone(), 2..5).prop_map(rec),
+        2 => prop::collection::vec(prop_oneof![2 => num.clone().boxed(), 1 => prop::collection::vec(num.clone(), 2..4).prop_map(Ty::Tuple).boxed()], 2..4).prop_map(rec),
+    ];
     let leaf = prop_oneof![
         4 => refabi::gen::scalar(),
         2 => Just(Ty::String),
+        1 => numagg.prop_map(|t| Ty::List(Box::new(t))),
         1 => (1usize..6).prop_map(|n| Ty::Enum((0..n).map(|i| format!("e{i}")).collect())),
         1 => prop::sample::select(vec![1usize, 2, 7, 8, 9, 16, 17, 32]).prop_map(|n| Ty::Flags((0..n).map(|i| format!("b{i}")).collect())),
     ]
@@ -72,6 +83,29 @@ pub fn value_ty(allow_map: bool, allow_fixed: bool) -> BoxedStrategy<Ty> {
         prop::strategy::Union::new_weighted(v)
     })
     .boxed()
+}
+
+/// does the type contain a list whose element is an aggregate of numbers only?
+pub fn has_numeric_aggregate_list(t: &Ty) -> bool {
+    fn numeric(t: &Ty) -> bool {
+        match t {
+            Ty::U8 | Ty::S8 | Ty::U16 | Ty::S16 | Ty::U32 | Ty::S32 | Ty::U64 | Ty::S64 | Ty::F32 | Ty::F64 => true,
+            Ty::Tuple(ts) => ts.iter().all(numeric),
+            Ty::Record(fs) => fs.iter().all(|(_, t)| numeric(t)),
+            Ty::FixedList(t, _) => numeric(t),
+            _ => false,
+        }
+    }
+    match t {
+        Ty::List(e) => (matches!(**e, Ty::Tuple(_) | Ty::Record(_)) && numeric(e)) || has_numeric_aggregate_list(e),
+        Ty::Option(t) | Ty::FixedList(t, _) => has_numeric_aggregate_list(t),
+        Ty::Map(k, v) => has_numeric_aggregate_list(k) || has_numeric_aggregate_list(v),
+        Ty::Result(a, b) => a.as_deref().map(has_numeric_aggregate_list).unwrap_or(false) || b.as_deref().map(has_numeric_aggregate_list).unwrap_or(false),
+        Ty::Tuple(ts) => ts.iter().any(has_numeric_aggregate_list),
+        Ty::Record(fs) => fs.iter().any(|(_, t)| has_numeric_aggregate_list(t)),
+        Ty::Variant(cs) => cs.iter().any(|(_, t)| t.as_ref().map(has_numeric_aggregate_list).unwrap_or(false)),
+        _ => false,
+    }
 }
 
 pub fn world_strategy(allow_map: bool, allow_fixed: bool) -> BoxedStrategy<ProxyWorld> {
@@ -524,6 +558,12 @@ pub fn unpack_rust_ty(ty: &str, e: &str) -> String {
 /// host callback and the `--stubs` bodies into forwarding calls. Returns the patched text and
 /// the import table (module, name) in id order.
 pub fn patch_rust_bindings(text: &str, funcs: &[Func]) -> Result<(String, Vec<(String, String)>), String> {
+    patch_rust_bindings_with(text, funcs, false)
+}
+
+/// `probe`: the forwarding implementation also reports a digest of what it received (8000 + i:
+/// parameters of f<i>, 8500 + i: the value its import returned)
+pub fn patch_rust_bindings_with(text: &str, funcs: &[Func], probe: bool) -> Result<(String, Vec<(String, String)>), String> {
     let re = regex::Regex::new(
         r#"#\[link\(wasm_import_module = "([^"]+)"\)\]\s*unsafe extern "C" \{\s*#\[link_name = "([^"]+)"\]\s*fn (\w+)\(([^)]*)\)\s*(?:->\s*([^;]+))?;\s*\}\s*#\[cfg\(not\(target_arch = "wasm32"\)\)\]\s*unsafe extern "C" fn (\w+)\(([^)]*)\)\s*(?:->\s*([^\{]+))?\{\s*unreachable!\(\)\s*\}"#,
     )
@@ -600,9 +640,203 @@ pub fn patch_rust_bindings(text: &str, funcs: &[Func]) -> Result<(String, Vec<(S
         if out[sat..bat].contains("\n  fn ") {
             return Err(format!("the `--stubs` method f{i} has no `unreachable!()` body"));
         }
-        out.replace_range(bat..bat + BODY.len(), &format!("{{ v::w::api::f{i}({}) }}", args.join(", ")));
+        let call = format!("v::w::api::f{i}({})", args.join(", "));
+        let body = if probe {
+            let refs: String = args.iter().map(|a| format!("&{}, ", a.trim_start_matches('&'))).collect();
+            format!("{{ crate::probe_report({}, &({refs})); let r = {call}; crate::probe_report({}, &r); r }}", 8000 + i, 8500 + i)
+        } else {
+            format!("{{ {call} }}")
+        };
+        out.replace_range(bat..bat + BODY.len(), &body);
     }
     Ok((out, table))
+}
+
+// ---------------------------------------------------------------- value probes
+//
+// A forwarding guest never looks at the values it passes on, so a lift and a lower that are
+// wrong in the same way (a list reinterpreted with the guest language's own layout on both
+// sides) cancel out. With probes the guest implementation walks the value it received through
+// the generated *Rust types* (fields, cases, elements) and reports a digest; the host computes the
+// same digest from the value it sent.
+
+/// guest side: digest trait and its implementations for everything but the named types
+pub const PROBE_GLUE: &str = r#"
+pub struct H(pub u64);
+impl H {
+    pub fn new() -> H { H(0xcbf29ce484222325) }
+    pub fn add(&mut self, x: u64) { self.0 = (self.0 ^ x).wrapping_mul(0x100000001b3); }
+}
+pub trait Probe { fn probe(&self, h: &mut H); }
+macro_rules! probe_int { ($($t:ty),*) => { $(impl Probe for $t { fn probe(&self, h: &mut H) { h.add(*self as i64 as u64) } })* } }
+probe_int!(u8, u16, u32, u64, i8, i16, i32, i64);
+impl Probe for bool { fn probe(&self, h: &mut H) { h.add(*self as u64) } }
+impl Probe for char { fn probe(&self, h: &mut H) { h.add(*self as u32 as u64) } }
+impl Probe for f32 { fn probe(&self, h: &mut H) { h.add(if self.is_nan() { 0x7fc0_0000 } else { self.to_bits() as u64 }) } }
+impl Probe for f64 { fn probe(&self, h: &mut H) { h.add(if self.is_nan() { 0x7ff8_0000_0000_0000 } else { self.to_bits() }) } }
+impl Probe for () { fn probe(&self, _: &mut H) {} }
+impl Probe for str { fn probe(&self, h: &mut H) { h.add(self.len() as u64); for b in self.bytes() { h.add(b as u64) } } }
+impl Probe for String { fn probe(&self, h: &mut H) { self.as_str().probe(h) } }
+impl<T: Probe + ?Sized> Probe for &T { fn probe(&self, h: &mut H) { (**self).probe(h) } }
+impl<T: Probe> Probe for [T] { fn probe(&self, h: &mut H) { h.add(self.len() as u64); for x in self { x.probe(h) } } }
+impl<T: Probe> Probe for Vec<T> { fn probe(&self, h: &mut H) { self.as_slice().probe(h) } }
+impl<T: Probe, const N: usize> Probe for [T; N] { fn probe(&self, h: &mut H) { self.as_slice().probe(h) } }
+impl<T: Probe> Probe for Option<T> { fn probe(&self, h: &mut H) { match self { None => h.add(0), Some(x) => { h.add(1); x.probe(h) } } } }
+impl<T: Probe, E: Probe> Probe for Result<T, E> { fn probe(&self, h: &mut H) { match self { Ok(x) => { h.add(0); x.probe(h) } Err(x) => { h.add(1); x.probe(h) } } } }
+macro_rules! probe_tuple { ($($n:ident),*) => { impl<$($n: Probe),*> Probe for ($($n,)*) { #[allow(non_snake_case)] fn probe(&self, h: &mut H) { let ($($n,)*) = self; $($n.probe(h);)* } } } }
+probe_tuple!(Pa);
+probe_tuple!(Pa, Pb);
+probe_tuple!(Pa, Pb, Pc);
+probe_tuple!(Pa, Pb, Pc, Pd);
+probe_tuple!(Pa, Pb, Pc, Pd, Pe);
+fn probe_entries<'a, K: Probe + 'a, V: Probe + 'a>(n: usize, it: impl Iterator<Item = (&'a K, &'a V)>, h: &mut H) {
+    // a map is a set of entries: the digest does not depend on their order
+    let mut acc = 0u64;
+    for (k, v) in it { let mut e = H::new(); k.probe(&mut e); v.probe(&mut e); acc = acc.wrapping_add(e.0); }
+    h.add(n as u64);
+    h.add(acc);
+}
+impl<K: Probe, V: Probe> Probe for std::collections::BTreeMap<K, V> { fn probe(&self, h: &mut H) { probe_entries(self.len(), self.iter(), h) } }
+impl<K: Probe, V: Probe, S> Probe for std::collections::HashMap<K, V, S> { fn probe(&self, h: &mut H) { probe_entries(self.len(), self.iter(), h) } }
+pub fn probe_report<T: Probe>(id: u32, v: &T) { let mut h = H::new(); v.probe(&mut h); unsafe { host_call(id, &[h.0]); } }
+"#;
+
+/// guest side: `Probe` for the named types of the world (same naming walk as `ProxyWorld::wit`)
+pub fn probe_impls(w: &ProxyWorld) -> String {
+    fn go(t: &Ty, n: &mut usize, out: &mut String) {
+        match t {
+            Ty::List(t) | Ty::FixedList(t, _) | Ty::Option(t) => go(t, n, out),
+            Ty::Map(k, v) => {
+                go(k, n, out);
+                go(v, n, out);
+            }
+            Ty::Tuple(ts) => ts.iter().for_each(|t| go(t, n, out)),
+            Ty::Result(a, b) => {
+                a.iter().for_each(|t| go(t, n, out));
+                b.iter().for_each(|t| go(t, n, out));
+            }
+            Ty::Record(fs) => {
+                fs.iter().for_each(|(_, t)| go(t, n, out));
+                let body: String = fs.iter().map(|(f, _)| format!("self.{f}.probe(h); ")).collect();
+                out.push_str(&format!("impl Probe for b::v::w::t::T{n} {{ fn probe(&self, h: &mut H) {{ {body}}} }}\n"));
+                *n += 1;
+            }
+            Ty::Variant(cs) => {
+                cs.iter().for_each(|(_, t)| t.iter().for_each(|t| go(t, n, out)));
+                let arms: String = cs
+                    .iter()
+                    .enumerate()
+                    .map(|(i, (c, t))| {
+                        let c = heck::ToUpperCamelCase::to_upper_camel_case(c.as_str());
+                        if t.is_some() {
+                            format!("Self::{c}(x) => {{ h.add({i}); x.probe(h); }} ")
+                        } else {
+                            format!("Self::{c} => h.add({i}), ")
+                        }
+                    })
+                    .collect();
+                out.push_str(&format!("impl Probe for b::v::w::t::T{n} {{ fn probe(&self, h: &mut H) {{ match self {{ {arms}}} }} }}\n"));
+                *n += 1;
+            }
+            Ty::Enum(cs) => {
+                let arms: String = cs.iter().enumerate().map(|(i, c)| format!("Self::{} => h.add({i}), ", heck::ToUpperCamelCase::to_upper_camel_case(c.as_str()))).collect();
+                out.push_str(&format!("impl Probe for b::v::w::t::T{n} {{ fn probe(&self, h: &mut H) {{ match self {{ {arms}}} }} }}\n"));
+                *n += 1;
+            }
+            Ty::Flags(_) => {
+                out.push_str(&format!("impl Probe for b::v::w::t::T{n} {{ fn probe(&self, h: &mut H) {{ h.add(self.bits() as u64) }} }}\n"));
+                *n += 1;
+            }
+            _ => {}
+        }
+    }
+    let (mut n, mut out) = (0, String::new());
+    for f in &w.funcs {
+        f.params.iter().chain(f.result.iter()).for_each(|t| go(t, &mut n, &mut out));
+    }
+    out
+}
+
+/// host side: the digest of a value, mirroring the guest's walk
+pub fn probe_digest(items: &[(&Ty, &Val)]) -> u64 {
+    struct H(u64);
+    impl H {
+        fn add(&mut self, x: u64) {
+            self.0 = (self.0 ^ x).wrapping_mul(0x100000001b3);
+        }
+    }
+    fn go(t: &Ty, v: &Val, h: &mut H) {
+        match (t, v) {
+            (_, Val::Bool(b)) => h.add(*b as u64),
+            (_, Val::U8(x)) => h.add(*x as u64),
+            (_, Val::U16(x)) => h.add(*x as u64),
+            (_, Val::U32(x)) => h.add(*x as u64),
+            (_, Val::U64(x)) => h.add(*x),
+            (_, Val::S8(x)) => h.add(*x as i64 as u64),
+            (_, Val::S16(x)) => h.add(*x as i64 as u64),
+            (_, Val::S32(x)) => h.add(*x as i64 as u64),
+            (_, Val::S64(x)) => h.add(*x as u64),
+            (_, Val::F32(b)) => h.add(if f32::from_bits(*b).is_nan() { 0x7fc0_0000 } else { *b as u64 }),
+            (_, Val::F64(b)) => h.add(if f64::from_bits(*b).is_nan() { 0x7ff8_0000_0000_0000 } else { *b }),
+            (_, Val::Char(c)) => h.add(*c as u32 as u64),
+            (_, Val::Str(s)) => {
+                h.add(s.len() as u64);
+                s.bytes().for_each(|b| h.add(b as u64));
+            }
+            (Ty::List(t) | Ty::FixedList(t, _), Val::List(l)) => {
+                h.add(l.len() as u64);
+                l.iter().for_each(|x| go(t, x, h));
+            }
+            (Ty::Map(k, t), Val::Map(m)) => {
+                let mut acc = 0u64;
+                for (a, b) in m {
+                    let mut e = H(0xcbf29ce484222325);
+                    go(k, a, &mut e);
+                    go(t, b, &mut e);
+                    acc = acc.wrapping_add(e.0);
+                }
+                h.add(m.len() as u64);
+                h.add(acc);
+            }
+            (Ty::Record(fs), Val::Record(l)) => fs.iter().zip(l).for_each(|((_, t), x)| go(t, x, h)),
+            (Ty::Tuple(ts), Val::Tuple(l)) => ts.iter().zip(l).for_each(|(t, x)| go(t, x, h)),
+            (Ty::Variant(cs), Val::Variant(i, p)) => {
+                h.add(*i as u64);
+                if let (Some(t), Some(p)) = (&cs[*i].1, p) {
+                    go(t, p, h);
+                }
+            }
+            (_, Val::Enum(i)) => h.add(*i as u64),
+            (Ty::Option(t), Val::Option(p)) => match p {
+                None => h.add(0),
+                Some(p) => {
+                    h.add(1);
+                    go(t, p, h);
+                }
+            },
+            (Ty::Result(a, b), Val::Result(r)) => match r {
+                Ok(p) => {
+                    h.add(0);
+                    if let (Some(t), Some(p)) = (a, p) {
+                        go(t, p, h);
+                    }
+                }
+                Err(p) => {
+                    h.add(1);
+                    if let (Some(t), Some(p)) = (b, p) {
+                        go(t, p, h);
+                    }
+                }
+            },
+            (_, Val::Flags(bits)) => h.add(bits.iter().enumerate().map(|(i, b)| (*b as u64) << i).sum()),
+            (t, v) => panic!("probe digest: value {v:?} does not have type {t:?}"),
+        }
+    }
+    let mut h = H(0xcbf29ce484222325);
+    for (t, v) in items {
+        go(t, v, &mut h);
+    }
+    h.0
 }
 
 /// export trampolines of the Rust glue
@@ -673,6 +907,12 @@ pub const TARGET: &str = "/verif/target/exec";
 
 /// prepare the Rust member for world `k`
 pub fn rust_member(k: usize, world: &ProxyWorld, variant: &str, args: &[&str]) -> Member {
+    rust_member_probed(k, world, variant, args, false)
+}
+
+/// `probe`: the forwarding implementation reports digests of the values it sees (see
+/// `PROBE_GLUE`); not for option sets that rename or merge the named types
+pub fn rust_member_probed(k: usize, world: &ProxyWorld, variant: &str, args: &[&str], probe: bool) -> Member {
     use crate::backends::{self, GenOutcome, Input};
     // the package is always v:w (one world per shared object)
     let wit = world.wit(0).replace("package v:w0;", "package v:w;");
@@ -704,9 +944,13 @@ pub fn rust_member(k: usize, world: &ProxyWorld, variant: &str, args: &[&str]) -
         return m;
     };
     let text = String::from_utf8_lossy(b).to_string();
-    match patch_rust_bindings(&text, &world.funcs) {
+    match patch_rust_bindings_with(&text, &world.funcs, probe) {
         Ok((patched, table)) => {
-            let glue = format!("{RUST_GLUE_HEAD}\n{}", rust_trampolines(world, "v:w"));
+            let mut glue = format!("{RUST_GLUE_HEAD}\n{}", rust_trampolines(world, "v:w"));
+            if probe {
+                glue.push_str(PROBE_GLUE);
+                glue.push_str(&probe_impls(world));
+            }
             m.imports = table;
             m.sources = Ok(vec![("lib.rs".into(), glue), ("b.rs".into(), patched)]);
         }
@@ -975,6 +1219,27 @@ pub fn decode<R>(what: &str, f: impl FnOnce() -> R) -> Option<R> {
 unsafe extern "C" fn host_call(id: u32, args: *const u64, nargs: usize, ret: *mut u64) {
     let args = std::slice::from_raw_parts(args, nargs).to_vec();
     *ret = 0;
+    if (8000..9000).contains(&id) {
+        // digest of what the implementation received (parameters) / got back from its import
+        let (f, is_result) = if id >= 8500 { ((id - 8500) as usize, true) } else { ((id - 8000) as usize, false) };
+        let Some((call, func)) = ctx(|c| c.current.clone().filter(|k| k.func == f).and_then(|k| c.world.funcs.get(f).cloned().map(|x| (k, x)))) else {
+            fail("import-unexpected", format!("value probe of f{f} while another call is in progress"));
+            return;
+        };
+        let want = if is_result {
+            match (&func.result, &call.result) {
+                (Some(t), Some(v)) => probe_digest(&[(t, v)]),
+                _ => probe_digest(&[]),
+            }
+        } else {
+            probe_digest(&func.params.iter().zip(&call.params).collect::<Vec<_>>())
+        };
+        if args.first().copied() != Some(want) {
+            let (what, vals) = if is_result { ("the value its import returned", format!("{:?}", call.result)) } else { ("its parameters", format!("{:?}", call.params)) };
+            fail("value-changed-in-implementation", format!("f{f}: the implementation of the export walked {what} through the generated types (fields, cases, elements) and saw something else than the host sent: {vals} (types {:?} -> {:?})", func.params, func.result));
+        }
+        return;
+    }
     match ctx(|c| c.import_func.get(id as usize).copied()) {
         Some(IMPORT_DROP) => {
             // resource.drop of an own handle
